@@ -650,7 +650,8 @@ impl DeriveShape for Expression {
                         // Boolean operators require boolean operands
                         BinaryExprType::AND | BinaryExprType::OR => {
                             // Narrow to check compatibility
-                            let narrowed = left_shape.narrow(&right_shape, symbol_table);
+                            let narrowed =
+                                narrow_operands(&left_shape, &right_shape, def, symbol_table);
                             if let Shape::TypeErr(_, _) = &narrowed {
                                 narrowed
                             } else {
@@ -658,7 +659,7 @@ impl DeriveShape for Expression {
                             }
                         }
                         // Math operators narrow types
-                        _ => left_shape.narrow(&right_shape, symbol_table),
+                        _ => narrow_operands(&left_shape, &right_shape, def, symbol_table),
                     }
                 }
             }
@@ -739,6 +740,23 @@ impl DeriveShape for Expression {
                 }
             }
         }
+    }
+}
+
+/// Narrow the operand shapes of a binary expression. The shape of a symbol
+/// carries the position of its definition. A mismatch between the operands is
+/// a fault of this expression and is reported at its right operand.
+fn narrow_operands(
+    left_shape: &Shape,
+    right_shape: &Shape,
+    def: &BinaryOpDef,
+    symbol_table: &mut BTreeMap<Rc<str>, Shape>,
+) -> Shape {
+    let narrowed = left_shape.narrow(right_shape, symbol_table);
+    match (left_shape, right_shape, narrowed) {
+        (Shape::TypeErr(_, _), _, narrowed) | (_, Shape::TypeErr(_, _), narrowed) => narrowed,
+        (_, _, Shape::TypeErr(_, msg)) => Shape::TypeErr(def.right.pos().clone(), msg),
+        (_, _, narrowed) => narrowed,
     }
 }
 
